@@ -23,6 +23,23 @@ def cases(rng, tier):
     ps += pktgen.huge_packets(rng, (0, 40, 16384))
     if tier == "thorough":
         ps += pktgen.big_packets(rng, 6, target=60000)
+    # one record of every type under the root name with minimal field values (empty strings, a root or one-label name, no items):
+    # nothing is compressible, so the two serialisations have the same length - a per-type slip in one of the two writers shows
+    seen = set()
+    for tname, vals in dns.field_sweeps("quick"):
+        vals = [("I", 0) if v[0] == "I" and not (tname == "IPSECKEY" and j == 1) else v for j, v in enumerate(vals)]
+        key = (tname, repr(vals))
+        if key in seen:
+            continue
+        seen.add(key)
+        for nm in ([], [b"n"]):
+            vv = [("N", nm) if v[0] == "N" else v for v in vals]
+            ps.append({"id": 1, "opcode": 0, "rcode": 0, "flags": 0x8400, "opt": None, "qs": [], "nss": [], "adds": [],
+                       "ans": [{"name": [], "class": 1, "ttl": 0, "cf": False, "rdata": ("T", tname, vv)}]})
+    for t0, vv in (("HINFO", [("B", b""), ("B", b"")]), ("ISDN", [("B", b""), ("B", b"")]), ("ISDN", [("B", b"150862028003217"), ("B", b"")]),
+                   ("ISDN", [("B", b""), ("B", b"004")]), ("TXT", [("L", [(0, b"")])]), ("TXT", [("L", [(0, b""), (0, b"")])])):
+        ps.append({"id": 1, "opcode": 0, "rcode": 0, "flags": 0x8400, "opt": None, "qs": [], "nss": [], "adds": [],
+                   "ans": [{"name": [], "class": 1, "ttl": 0, "cf": False, "rdata": ("T", t0, vv)}]})
     for k, p in enumerate(ps):
         t = dns.pkt_text(p)
         for m in ("C", "P"):
@@ -85,3 +102,21 @@ def extra_coverage():
     n1 = sum(1 for r in res if r == "1")
     bad = [c[8:208] for c, r in zip(cs, res) if r != "1"][:3]
     return {"hypothesis_wf_packetb_true": n1, "hypothesis_evaluated": len(cs), "hypothesis_false_samples": bad}
+
+
+def followups(case, out):
+    """the plain serialisation of the same packet, for the length clause of the property"""
+    if case.startswith("RT C ") and out.startswith("OK "):
+        return ["BUILD P " + case[5:]]
+    return []
+
+
+def oracle2(case, out, fu, fu_out):
+    if not fu_out or not fu_out[0].startswith("OK "):
+        return None
+    comp = out[3:].split(" | ", 1)[0]
+    plain = fu_out[0][3:]
+    if len(comp) > len(plain):
+        return ("the compressed serialisation (%d bytes) is longer than the uncompressed one (%d bytes): %s"
+                % (len(comp) // 2, len(plain) // 2, case[5:300]))
+    return None
